@@ -117,3 +117,40 @@ def spec_is_retry(r, method, status_code, has_retry_after):
     return method_retryable(r, method) and (
         bool(r.status_forcelist and status_code in r.status_forcelist)
         or bool(r.total and r.respect_retry_after_header and has_retry_after and retry_after_status(status_code)))
+
+
+def is_count(x):
+    return isinstance(x, int) and x >= 0
+
+
+def is_connect_class_b(e):
+    """connect-class at the connection boundary: ConnectTimeoutError family, possibly wrapped in ProxyError"""
+    return isinstance(e, ConnectTimeoutError) or (isinstance(e, ProxyError) and isinstance(e.original_error, ConnectTimeoutError))
+
+
+def boundary_exception(e):
+    """assumed shape of exceptions crossing the connection boundary: a ProxyError carries an Exception; a urllib3
+    TimeoutError is a ReadTimeoutError or a ConnectTimeoutError (nothing raises the bare base class)"""
+    return (not isinstance(e, EmptyPoolError)
+            and implies(isinstance(e, ProxyError), isinstance(e.original_error, Exception))
+            and implies(isinstance(e, K("urllib3.exceptions.TimeoutError")), isinstance(e, (ReadTimeoutError, ConnectTimeoutError))))
+
+
+def tunnel_required(proxy_url, proxy_config, destination_scheme):
+    """the documented routing: no proxy -> no tunnel; http destination -> forward; https destination -> CONNECT tunnel,
+    unless the proxy itself is https and forwarding for https was opted into"""
+    return (proxy_url is not None and destination_scheme != "http"
+            and not (proxy_url.scheme == "https" and bool(proxy_config) and bool(proxy_config.use_forwarding_for_https)))
+
+
+def is_int(x):
+    return isinstance(x, int) and not isinstance(x, bool)
+
+
+def valid_conn(c):
+    """class invariant of HTTPConnection as far as the pool relies on it"""
+    return c.proxy is None or isinstance(c.proxy, Url)
+
+
+def valid_response(r):
+    return is_int(r.status) and isinstance(r.headers, HTTPHeaderDict)
